@@ -70,7 +70,8 @@ pub fn run_prop(p: &dyn Prop, cases: Vec<Case>, threads: usize) -> Agg {
                     let o = p.run(c, &mut m);
                     let mut fl: Option<Failure> = None;
                     if fails(&o) {
-                        let do_shrink = agg.lock().unwrap().failures.len() < 4;
+                        let is_oracle = o.oracle_fail.is_some();
+                        let do_shrink = agg.lock().unwrap().failures.iter().filter(|g| (g.kind == "oracle") == is_oracle).count() < 4;
                         // shrink: greedily accept smaller failing variants
                         let mut cur = c.clone();
                         let mut cur_o = o.clone();
@@ -99,7 +100,8 @@ pub fn run_prop(p: &dyn Prop, cases: Vec<Case>, threads: usize) -> Agg {
                     if i % sample_every == 0 && a.samples.len() < 8 {
                         a.samples.push(JObj::new().raw("case", case_json(c)).s("impl", &shorten(&o.impl_obs)).s("model", &shorten(&o.model_obs)).render());
                     }
-                    if let Some(f) = fl { if a.failures.len() < 50 { a.failures.push(f); } }
+                    // keep up to 25 failures of each kind: a flood of model disagreements must not crowd out the failing inputs of the property's own oracle
+                    if let Some(f) = fl { if a.failures.iter().filter(|g| g.kind == f.kind).count() < 25 { a.failures.push(f); } }
                 }
                 agg.lock().unwrap().model_queries += m.asked;
             });
